@@ -185,6 +185,7 @@ void sx_on_quiescent(void)
 	/* nobody can run any more.  Without a release that is the normal end (the pool keeps the
 	 * owner's loop alive); every item must have completed and idle workers must have gone */
 	sx_cover("work.quiescent");
+	sx_leak_check_unreachable();	/* C18: nothing the library allocated has been lost track of */
 	sx_assert(pool_alive, "C13.loop-stuck-after-pool-release");
 	final_checks();
 	sx_assert(starts == stops, "C13.worker-alive-at-quiescence-after-idle-timeout");
